@@ -822,6 +822,13 @@ a
 [a-c]+
 ''')
 
+E('h_min', 'hist', r'''
+%%
+ab
+a
+b
+''')
+
 E('h_nl', 'hist histnl', r'''
 %option yylineno
 %%
